@@ -582,6 +582,11 @@ def identity(prog, ex, P, tier):
     ex.check("C11", len(set(ids)) == 3, "actors share an id: %s" % ids)
     sampler = s.client("sm", [("identities", "A"), ("downgrade", "A"), ("is_alive", "A"), ("tell", "A", 1), ("yield",), ("is_alive", "A"), ("weak_is_alive", "A"),
                               ("drop", "A"), ("yield",), ("weak_is_alive", "A"), ("upgrade", "A"), ("tell", "A", 3)], ["A"])
+    if P == "C11":
+        # is_alive() asked of the reference itself or of a Box<dyn ActorControl> made from it
+        rt = pick(ex, ["direct", "from_ref", "clone_boxed"], "alive-route")
+        sampler.routes[2] = rt
+        sampler.routes[5] = rt
     if cause == "stop":
         s.client("cs", [("stop", "A")], ["A"])
     elif cause == "kill":
@@ -1382,7 +1387,11 @@ def blocking(prog, ex, P, tier):
         # called from spawn_blocking (a thread that HAS a runtime handle): full mailbox, slow actor, then stop
         dict(cap=1, hy=1, ops=[("btell", "A", 1), ("btell", "A", 2), ("btell", "A", 3)], other=None, end="stop-after", ctx="spawn_blocking"),
         dict(cap=1, hy=1, ops=[("btell", "A", 1), ("btell", "A", 2), ("bask", "A", 3)], other=[("tell", "A", 4)], end="drop", ctx="spawn_blocking"),
-    ], "variant")
+    ] + ([
+        # Some(Duration::ZERO) is a deadline, not "no timeout": full mailbox / actor that never answers in time
+        dict(cap=1, hy="tick", ops=[("btell", "A", 1), ("btell_t", "A", 2, 0), ("bask_t", "A", 3, 0)], other=None, end="drop"),
+        dict(cap=1, hy="tick", ops=[("bask_t", "A", 1, 0)], other=None, end="drop"),
+    ] if P == "C17" else []), "variant")
     PP = P if P in ("C16", "C02", "C01", "C13", "C10") else "C17"
     s = Sim(prog, ex)
     w = s.w
@@ -1676,7 +1685,7 @@ def macro_corpus(prog, ex, P, tier):
                 ex.check("C19", v.z() == acc, "handle() does not return what the method computes")
             elif h["ret"] == "unit":
                 ex.check("C19", is_unit(v), "Reply of a handler without return type is not ()")
-            elif h["ret"] in ("result", "std_result", "path1", "alias"):
+            elif h["ret"] in ("result", "std_result", "path1", "selfpath", "alias"):
                 is_err = ex.branch_bool(odd)
                 ex.check("C19", isinstance(v, Agg) and v.name == "Result" and v.variant == ("Err" if is_err else "Ok"), "Reply of a Result handler: %s (payload odd: %s)" % (w.describe(v), is_err))
                 if not is_err:
